@@ -128,6 +128,7 @@ type FnCtx struct {
 	atSorts map[string]string
 	usedLemmas map[string]bool
 	entryHeld []string
+	serves    []string // wait objects this activation serves (C15)
 	localBoxes map[string][]string
 	curArgs []Val
 	loopDecs map[*loopInfo]string
@@ -1283,6 +1284,7 @@ func (fc *FnCtx) execBody(fn *ssa.Function, st0 *State, params []Val, freeVars [
 			if _, ok := in.(*ssa.Phi); ok {
 				continue
 			}
+			fc.waitCheckInstr(st, in)
 			if !fc.execInstr(fr, st, in, b, incoming) {
 				alive = false
 				break
